@@ -26,10 +26,10 @@ CheckCtor(e) ==
          "contains() disagrees with the definition of " \o nm \o " at a grid point (boundary points included)", "contains/" \o nm)
     /\ V("C14", e, Len(e.dist) = 0 \/ \A r \in 1..Len(e.dist) :
             LET dv == e.dist[r]
-                raw == p.b[r] * c.dist_den - Dot(p.m[r], c.dist_at)                  \* (b - a.x) scaled by q * den
+                raw == p.b[r] * c.dist_den - Dot(p.m[r], c.dist_at)                  \* (b - a.x) scaled by q * den; |a| = n2 / q, so distance = raw / (den * n2)
             IN IF IsZero(p.m[r]) THEN (raw = 0 \/ dv.k = (IF raw > 0 THEN "inf" ELSE "-inf"))     \* all points inside: +inf, no point inside: -inf (0/0 excluded)
                ELSE /\ ((dv.k = "num" /\ Sign(dv.v) = Sign(raw)) \/ (raw = 0 /\ Abs(dv.v) <= 1))
-                    /\ (\A n2 \in 1..20 : Dot(p.m[r], p.m[r]) = n2 * n2 => Abs(dv.v * n2 * p.q * c.dist_den - raw * WQ) <= n2 * p.q * c.dist_den),
+                    /\ (\A n2 \in 1..20 : Dot(p.m[r], p.m[r]) = n2 * n2 => Abs(dv.v * n2 * c.dist_den - raw * WQ) <= n2 * c.dist_den),
          "distance() has the wrong sign or magnitude for a non-zero row", "distance/" \o nm)
 
 \* ---------------------------------------------------------------- polytopes: transformations (C14)
@@ -76,6 +76,7 @@ CheckClean(e) ==
 CheckPoly(e) ==
     IF e.res = "panic" THEN
         V(IF e.op \in M!CleanOps THEN "C15" ELSE "C14", e, FALSE, "polytope operation panicked: " \o e.op, e.op \o "/panic")
+    ELSE IF ~e.post.ex THEN Note("INEXACT", e, "result not representable at the trace scale: exact comparison skipped for " \o e.op)
     ELSE IF e.op = "ctor" THEN CheckCtor(e)
     ELSE IF e.op \in M!CleanOps THEN CheckClean(e)
     ELSE CheckStep14(e)
